@@ -17,7 +17,7 @@ Record case := {
   c_names : list (contents * ename);
   c_compile : list (envid * contents * program);        (* absent = does not compile *)
   c_behave : list (program * dir * args * result);
-  c_invs : list inv;
+  c_invs : list ginv;                                    (* every command: Model/Procs.v's general system *)
   c_warm : list (ename * program);
   c_seeds : list N;                                      (* random schedules *)
   c_scheds : list (list nat);                            (* explicit schedules: the class a gated launch enforces *)
@@ -51,7 +51,8 @@ Definition fs_of (c : case) : fsys :=
   {| f_mf := fun d => nat_assoc (c_mf c) d "";
      f_env := fun d => nat_assoc (c_env c) d "";
      f_main := fun _ => None;
-     f_cache := fun e => str_assoc (c_warm c) e |}.
+     f_cache := fun e => str_assoc (c_warm c) e;
+     f_out := fun _ => None |}.
 
 (* ---- random schedules from a seed (xorshift32; only shifts, xor and masks: cheap under vm_compute);
    three styles: single steps, short bursts, long bursts *)
@@ -93,9 +94,9 @@ Fixpoint dedup {A} (eqb : A -> A -> bool) (l : list A) : list A :=
   match l with [] => [] | x :: r => let d := dedup eqb r in if mem eqb x d then d else x :: d end.
 
 Definition model_run (c : case) (sched : list nat) : sys :=
-  run (t_name c) t_gen (t_compile c) (t_behave c) (c_invs c) (fs_of c) sched.
+  grun (t_name c) t_gen (t_compile c) (t_behave c) (c_invs c) (fs_of c) sched.
 Definition model_alone (c : case) (i : nat) : option result :=
-  alone (t_name c) t_gen (t_compile c) (t_behave c) (c_invs c) (fs_of c) i.
+  galone (t_name c) t_gen (t_compile c) (t_behave c) (c_invs c) (fs_of c) i.
 
 (* per process: the set of results over all the schedules *)
 Definition allowed (c : case) : list (list (option result)) :=
